@@ -27,3 +27,30 @@ Lemma run_stream_is_drive_stream : forall lines tail script,
   | SPanic t => Panic t
   end.
 Proof. intros. rewrite iter_tr_stream_run. reflexivity. Qed.
+
+(* ------------------------------------------------------------------ on the real symbol table *)
+From RM Require Import C09.Proofs C09.ProofsBytes C09.ProofsFinish C09.ProofsFinal C10.Model C10.Proofs C10.ProofsCache C10.ProofsStream.
+
+(* parse_async over any non-failing body that delivers an input whose lines are shorter than 80 KiB ends with the verdict of
+   the schedule-free specification; that verdict is a symbol table or an error (finish cannot panic); the callback got a
+   prefix, and everything when it is a table *)
+Lemma stream_table : forall (lines : list rle) (tail : Z) (script : list sev),
+  short_lines cllen lines tail -> delivered script = input_len rle cllen lines tail -> fails script = false ->
+  exists t x, table_of (spec_c lines tail) = Ret t /\
+              drive_stream_c lines tail script = Ret (spec_c lines tail, x) /\
+              cbsum (core x) = total (core x) /\ (t <> None -> cbsum (core x) = input_len rle cllen lines tail).
+Proof.
+  intros lines tail script Hs Hd Hf.
+  destruct (parse_total lines tail []) as [r0 [s0 [t [H0 T0]]]].
+  destruct (table_chunk_independent lines tail Hs []) as [r1 [s1 [H1 [E1 _]]]].
+  rewrite H0 in H1. inversion H1; subst r1 s1. subst r0.
+  destruct (stream_is_spec rle cllen pst init_pst recog_pst bump_pst lineno_pst ProofsBytes.cllen_pos lines tail Hs script Hd) as [x E].
+  unfold spec_stream in E. rewrite Hf in E.
+  destruct (stream_total rle cllen pst init_pst recog_pst bump_pst lineno_pst ProofsBytes.cllen_pos lines tail script Hd)
+    as [r [x' [E' [C [_ A]]]]].
+  rewrite E in E'. inversion E'; subst r x'.
+  exists t, x. split; [exact T0|]. split; [exact E|]. split; [exact C|].
+  intros Ht. unfold spec_c in T0.
+  destruct (spec rle pst init_pst recog_pst lineno_pst lines tail) as [p|c ln] eqn:S; [apply (A p); reflexivity|].
+  cbn [table_of] in T0. inversion T0; subst t. contradiction Ht; reflexivity.
+Qed.
